@@ -386,6 +386,8 @@ where
     }
 
     fn next_pos(&self, pos: u64) -> u64 {
+        #[cfg(agdb_verif)]
+        crate::verif::probe_tick();
         if pos == self.capacity() - 1 {
             0
         } else {
@@ -396,6 +398,8 @@ where
     fn rehash(&mut self, storage: &mut Storage<D>, capacity: u64) -> Result<(), DbError> {
         let current_capacity = self.capacity();
         let new_capacity = std::cmp::max(capacity, 64_u64);
+        #[cfg(agdb_verif)]
+        let new_capacity = crate::verif::min_capacity(capacity, new_capacity);
 
         match current_capacity.cmp(&new_capacity) {
             std::cmp::Ordering::Less => self.grow(storage, current_capacity, new_capacity),
@@ -451,6 +455,8 @@ where
                 break;
             }
 
+            #[cfg(agdb_verif)]
+            crate::verif::probe_tick();
             pos += 1;
 
             if pos == new_capacity {
@@ -486,6 +492,8 @@ where
         let mut occupancy = BitSet::with_capacity(new_capacity);
 
         while i != current_capacity {
+            #[cfg(agdb_verif)]
+            crate::verif::probe_tick();
             let state = self.data.state(storage, i)?;
             self.rehash_value(storage, state, &mut i, new_capacity, &mut occupancy)?;
         }
